@@ -214,6 +214,10 @@ RetV(s, e) ==
     [] e.op \in ReadingOps /\ ~Live(s, e.v) -> <<"C01", "load returned a destroyed value">>
     [] e.op \in ReadingOps /\ e.t \in s.used /\ e.t \notin s.exempt /\ e.n > LoadStepBound
          -> <<"C08", "load took more own steps than the wait-free bound">>
+    \* a load that has to find or create its bookkeeping first (first load of a thread, after the generation wrap, from a
+    \* thread-local destructor) walks the list of nodes - a few steps per node, also bounded: it never WAITS for anybody
+    [] e.op \in ReadingOps /\ e.n > 4 * LoadStepBound
+         -> <<"C08", "load took more own steps than looking for its bookkeeping can explain: it waited for another thread">>
     [] e.op = "store" /\ ~p.wrote -> <<"C04", "store returned without writing">>
     [] e.op = "swap" /\ ~p.wrote -> <<"C04", "swap returned without writing">>
     [] e.op = "swap" /\ e.v # p.old -> <<"C04", "swap did not return the value it replaced">>
